@@ -11,7 +11,8 @@
 import sys, os, json, subprocess, shutil, re, time
 
 def sh(cmd, cwd=None, timeout=3000):
-    p = subprocess.run(cmd, shell=True, cwd=cwd, stdout=subprocess.PIPE, stderr=subprocess.STDOUT, timeout=timeout)
+    # evidence written while a seeded change is applied must not overwrite the committed evidence
+    p = subprocess.run(cmd, shell=True, cwd=cwd, env=dict(os.environ, VERIF_EVIDENCE_DIR='/tmp/seed_evidence'), stdout=subprocess.PIPE, stderr=subprocess.STDOUT, timeout=timeout)
     return p.returncode, p.stdout.decode('utf-8', 'replace')
 
 def main():
